@@ -2,6 +2,7 @@ CONSTANTS
   MaxSize = 8
   StartSet <- StartsLarge
   MaxLen = 12
+  MaxLoops = 2
   TableFile <- TableFileEnv
   HonourStart = TRUE
 SPECIFICATION TableSpec
